@@ -452,6 +452,56 @@ func checkSteering(pairs []mc.Pair) {
 
 // ---------------------------------------------------------------- predicates, sqrt
 
+// limbPatterns: all stored-limb patterns over {0, 1, 2^63, 2^64-1}^4 below the modulus. Equality / zero tests
+// combine the four limbs; a wrong combination (XOR or ADD instead of OR, an ignored limb) only shows on
+// operands whose limb differences cancel, which no value alphabet contains by accident.
+func limbPatterns(mod *big.Int) [][4]uint64 {
+	lv := []uint64{0, 1, 1 << 63, ^uint64(0)}
+	var out [][4]uint64
+	for a := 0; a < 4; a++ {
+		for b := 0; b < 4; b++ {
+			for c := 0; c < 4; c++ {
+				for d := 0; d < 4; d++ {
+					l := [4]uint64{lv[a], lv[b], lv[c], lv[d]}
+					if limbsBig(l).Cmp(mod) < 0 {
+						out = append(out, l)
+					}
+				}
+			}
+		}
+	}
+	return out
+}
+
+// explorePredicateMatrix: Equal / IsZero over all PAIRS of stored-limb patterns (objects built through the limb hook).
+func explorePredicateMatrix() {
+	pats := limbPatterns(ref.P)
+	mc.Par(len(pats), func(i int) {
+		a := new(FE)
+		secp256k1.VerifFESetLimbs(a, pats[i])
+		wz := uint64(0)
+		if pats[i] == [4]uint64{} {
+			wz = 1
+		}
+		if a.IsZero() != wz {
+			R.Fail("field/IsZero/limb pattern", "limbpred", map[string]any{"stored_limbs": fmt.Sprint(pats[i]), "got": a.IsZero()}, nil)
+		}
+		for j := range pats {
+			b := new(FE)
+			secp256k1.VerifFESetLimbs(b, pats[j])
+			want := uint64(0)
+			if pats[i] == pats[j] {
+				want = 1
+			}
+			if a.Equal(b) != want {
+				R.Fail("field/Equal/limb patterns", "limbpred", map[string]any{"stored_limbs_a": fmt.Sprint(pats[i]), "stored_limbs_b": fmt.Sprint(pats[j]), "Equal": a.Equal(b), "want": want}, nil)
+			}
+		}
+		R.T(int64(len(pats) + 1))
+	})
+	R.Class("predicates/pairs of stored-limb patterns {0,1,2^63,2^64-1}^4", int64(len(pats)*len(pats)))
+}
+
 func explorePredicates(fe []mc.Val) {
 	mc.Par(len(fe), func(i int) {
 		v := fe[i].V
@@ -993,6 +1043,7 @@ func main() {
 	R.Bound("alias_patterns", "all set partitions of {receiver,a,b} (5) / {receiver,a} (2)")
 	exploreUint64()
 	explorePredicates(fe)
+	explorePredicateMatrix()
 	exploreSqrtRatio(subAlphabet(fe, map[bool]int{false: 48, true: 110}[R.Thorough()]))
 	exploreWide()
 	exploreDecode(fe)
